@@ -26,6 +26,7 @@ func genC14(seed uint64, tier string) *Plan {
 	p := &Plan{Engine: "fcache", X: map[string]int{}}
 	p.X["cap"] = r.Intn(4)
 	p.X["names"] = 1 + r.Intn(3)
+	p.X["shape"] = []int{0, 0, 0, 1, 2, 3}[simrt.SplitMix(seed^0x5a9e)%6]
 	nt := 1
 	if r.Chance(0.4) {
 		nt = 2 + r.Intn(2)
@@ -70,7 +71,23 @@ func (s *fcState) fail(class, format string, a ...any) {
 	}
 }
 
-func fcName(i int) string { return fmt.Sprintf("/fc/file%d", i) }
+// fcShape is the spelling of the file names of the running plan: 0 absolute and
+// clean, 1 with a "." element, 2 with a doubled separator, 3 relative. A cache
+// keyed by name must work for whatever spelling its caller uses consistently.
+// (One world at a time per process, set at the start of each run.)
+var fcShape int
+
+func fcName(i int) string {
+	switch fcShape {
+	case 1:
+		return fmt.Sprintf("/fc/./file%d", i)
+	case 2:
+		return fmt.Sprintf("/fc//file%d", i)
+	case 3:
+		return fmt.Sprintf("fc/file%d", i)
+	}
+	return fmt.Sprintf("/fc/file%d", i)
+}
 
 // checkInvariants compares the cache's state with the handle ledger. Only
 // called when no other task is inside the cache.
@@ -195,7 +212,9 @@ func (s *fcState) task(ti int, ops []Op, single bool) {
 func runFCache(p *Plan, tape *simrt.Tape, opt RunOpt) *RunOut {
 	out := newOut()
 	fs := simos.NewFS()
+	fcShape = p.x("shape", 0)
 	fs.MkdirAllDirect("/fc")
+	fs.MkdirAllDirect("/cwd/fc")
 	for i := 0; i < 3; i++ {
 		fs.WriteFileDirect(fcName(i), []byte{byte(i), 1, 2, 3})
 	}
